@@ -5,6 +5,10 @@ from mc.choice import explore, shard_prefixes, Chooser
 from mc.sched import Sched, CoopLock, CoopQueue
 from mc.runner import Stats
 
+class TaskAbort(BaseException):
+    """raised by a task: its outcome must still be reported (ok=False) exactly once"""
+
+
 # (max threads, number of submitters, stop?, preemption bound quick, thorough)
 CONFIGS = [(1, 2, True), (2, 2, True), (1, 1, True)]
 
@@ -73,7 +77,8 @@ def run_one(ch, maxthreads, nsub, with_stop):
             def work():
                 rec[i]["runs"] += 1
                 if i % 2:
-                    raise RuntimeError("boom")
+                    # odd tasks fail; every other failing task with an exception that is not an Exception subclass
+                    raise (TaskAbort if i % 4 == 1 else RuntimeError)("boom")
                 return i
 
             def onResult(ok, result):
